@@ -109,11 +109,10 @@ fn ensure_error_code_correct(
     value: &JValue,
     field_name: &'static str,
 ) -> Result<(), ErrorObjectError> {
-    match value {
-        JValue::Number(number) if number.is_i64() | number.is_u64() => {
-            ensure_error_code_is_error(number.as_i64().unwrap())
-        }
-        _ => Err(ErrorObjectError::ScalarFieldIsWrongType {
+    // a u64 above i64::MAX is not a valid error code either
+    match value.as_i64() {
+        Some(error_code) => ensure_error_code_is_error(error_code),
+        None => Err(ErrorObjectError::ScalarFieldIsWrongType {
             scalar: scalar.clone(),
             field_name,
             expected_type: "integer",
